@@ -13,7 +13,7 @@ import torch
 
 import inferno
 from inferno import learn, neural, observe
-from inferno.observe import FoldReducer, PassthroughReducer, StateMonitor
+from inferno.observe import FoldReducer, PassthroughReducer, StateMonitor, InputMonitor, OutputMonitor, DifferenceMonitor
 
 from rv import factory as fac
 from rv import trainers as tr
@@ -50,7 +50,8 @@ def generate(ctx):
             elif r < 0.20:
                 ops.append(["del_cell", t, rng.randrange(len(cells))])
             elif r < 0.28:
-                ops.append(["add_monitor", t, rng.randrange(len(cells)), rng.choice(["neuron.spike", "connection.synspike", "neuron.voltage"]),
+                ops.append(["add_monitor", t, rng.randrange(len(cells)), rng.choice(["neuron.spike", "connection.synspike", "neuron.voltage",
+                                                                                     "neuron:out", "connection:in", "neuron.voltage:diff"]),
                             rng.randrange(2), rng.random() < 0.3])
             elif r < 0.33:
                 ops.append(["del_monitor", t, rng.randrange(len(cells)), rng.randrange(2)])
@@ -124,15 +125,38 @@ class World:
     def step(self, lname):
         L = self.layers[lname]
         x = torch.rand(1, 3, generator=self.g) < 0.7
+        self.prev_v = {(lname, nn_): nrn.voltage.detach().clone() for nn_, nrn in L.named_neurons}
         if lname == "bi":
-            return L({"c0": (x,), "c1": (torch.rand(1, 3, generator=self.g) < 0.7,)})
+            x1 = torch.rand(1, 3, generator=self.g) < 0.7
+            self.last_in = {(lname, "c0"): x, (lname, "c1"): x1}
+            return L({"c0": (x,), "c1": (x1,)})
+        self.last_in = {(lname, "serial"): x}
         return L(x)
 
     def attr_value(self, spec, attr):
         L, c, n = spec
+        if attr == "neuron:out":
+            return self.layers[L].get_neuron(n).spike
+        if attr == "connection:in":
+            return self.last_in[(L, c)].float()
+        if attr == "neuron.voltage:diff":
+            return self.layers[L].get_neuron(n).voltage - self.prev_v[(L, n)]
         comp, leaf = attr.split(".")
         obj = self.layers[L].get_neuron(n) if comp == "neuron" else self.layers[L].get_connection(c)
         return getattr(obj, leaf)
+
+
+def _probe_constructor(attr):
+    """(attribute path handed to add_monitor, partial constructor): state probes and the other shipped monitor kinds"""
+    red = PassthroughReducer(1.0, duration=0.0, inclusive=True)
+    if attr.endswith(":out"):
+        return attr[:-4], OutputMonitor.partialconstructor(reducer=red, train_update=True, eval_update=False, prepend=True)
+    if attr.endswith(":in"):
+        return attr[:-3], InputMonitor.partialconstructor(reducer=red, train_update=True, eval_update=False, prepend=True,
+                                                          map_=lambda inputs: (inputs[0].float(),))
+    if attr.endswith(":diff"):
+        return attr[:-5], DifferenceMonitor.partialconstructor(reducer=red, train_update=True, eval_update=False, prepend=True)
+    return attr, StateMonitor.partialconstructor(reducer=red, as_prehook=False, train_update=True, eval_update=False, prepend=True)
 
 
 def _mk_trainer(kind):
@@ -229,18 +253,18 @@ def run_case(ctx, desc):
                     ctx.case(f"add_monitor_again/{tk}/{cells[ci][0]}")
                     ctx.count("repeated_add_monitor_calls")
                     have = trainers[ti].get_monitor(name_of(ci), pname)
-                    again = trainers[ti].add_monitor(name_of(ci), pname, attr, StateMonitor.partialconstructor(
-                        reducer=PassthroughReducer(1.0, duration=0.0, inclusive=True), as_prehook=False, train_update=True,
-                        eval_update=False, prepend=True), False, probe=attr)
+                    path, ctor = _probe_constructor(attr)
+                    again = trainers[ti].add_monitor(name_of(ci), pname, path, ctor, False, probe=attr)
                     if have is None or again is not have or trainers[ti].get_monitor(name_of(ci), pname) is not have:
                         return ctx.violation("add_monitor.existing_name_not_returned_as_is",
                                              "add_monitor under an existing name (unique=False) did not return the existing monitor", rdesc)
                     return None
                 ctx.case(f"add_monitor/{tk}/{attr}/uniq{int(uniq)}/{cells[ci][0]}")
-                trainers[ti].add_monitor(name_of(ci), pname, attr, StateMonitor.partialconstructor(
-                    reducer=PassthroughReducer(1.0, duration=0.0, inclusive=True), as_prehook=False, train_update=True,
-                    eval_update=False, prepend=True), uniq, probe=attr)
+                path, ctor = _probe_constructor(attr)
+                trainers[ti].add_monitor(name_of(ci), pname, path, ctor, uniq, probe=attr)
                 probes[ti][(name_of(ci), pname)] = attr
+                if ":" in attr:
+                    ctx.count("probes_of_other_monitor_kinds")
             elif k == "replace_trainer_monitor":
                 ci = op[2]
                 if name_of(ci) not in reg[ti] or tk == "LinearHomeostasis":
